@@ -733,3 +733,85 @@ func checkPersistAll(c *core.Ctx, rule string) {
 	}
 	c.Floor(rule, n, 20, "tree writes in the Commit methods of the state modules")
 }
+
+// ---------------------------------------------------------------- C09.precommit
+
+// checkNoCacheDropInCommit — a module's Commit runs BEFORE the tree version is saved and before
+// the modules are switched to the new immutable tree. A cache field that a getter fills lazily
+// from `immutableTree()` must therefore not be emptied by Commit: a reader that comes between the
+// module's Commit and the switch (an API query, the next CheckTx) finds the cache empty, decodes
+// the PREVIOUS version's record and caches that — from then on this node computes with the old
+// record (the old price table) while its state holds the new one.
+func checkNoCacheDropInCommit(c *core.Ctx, rule string) {
+	n := 0
+	for _, fn := range c.AllFns {
+		if fn.Synthetic != "" || fn.Name() != "Commit" || !strings.HasPrefix(core.PkgOf(fn), core.PkgState+"/") || fn.Signature.Recv() == nil || fn.Blocks == nil || legacyV1(fn) {
+			continue
+		}
+		t := namedOf(fn.Signature.Recv().Type())
+		if t == nil {
+			continue
+		}
+		n++
+		// fields a method other than Commit fills from the tree
+		lazy := map[string]*ssa.Function{}
+		ms := c.Prog.MethodSets.MethodSet(types.NewPointer(t))
+		for i := 0; i < ms.Len(); i++ {
+			m := c.Prog.FuncValue(ms.At(i).Obj().(*types.Func))
+			if m == nil || m.Blocks == nil || m == fn || c.GroupRoot(m) == fn {
+				continue
+			}
+			readsTree := false
+			for _, s := range core.Sites(m) {
+				if strings.HasSuffix(s.Callee, ".immutableTree") || strings.HasSuffix(s.Callee, "iavl.ImmutableTree).Get") {
+					readsTree = true
+				}
+			}
+			if !readsTree {
+				continue
+			}
+			for _, b := range m.Blocks {
+				for _, in := range b.Instrs {
+					st, ok := in.(*ssa.Store)
+					if !ok {
+						continue
+					}
+					if fa, ok := st.Addr.(*ssa.FieldAddr); ok && namedOf(fa.X.Type()) == t {
+						if k, isK := core.Unwrap(st.Val).(*ssa.Const); isK && k.Value == nil {
+							continue
+						}
+						lazy[fieldNameOf(fa)] = m
+					}
+				}
+			}
+		}
+		bad := ""
+		for _, g := range append([]*ssa.Function{fn}, c.Helpers(fn)...) {
+			for _, b := range g.Blocks {
+				for _, in := range b.Instrs {
+					st, ok := in.(*ssa.Store)
+					if !ok {
+						continue
+					}
+					fa, ok := st.Addr.(*ssa.FieldAddr)
+					if !ok || namedOf(fa.X.Type()) != t {
+						continue
+					}
+					k, isK := core.Unwrap(st.Val).(*ssa.Const)
+					if !isK || k.Value != nil {
+						continue
+					}
+					if _, isPtr := st.Val.Type().Underlying().(*types.Pointer); !isPtr {
+						continue
+					}
+					if m, ok := lazy[fieldNameOf(fa)]; ok {
+						bad = fmt.Sprintf("%s (refilled by %s) at %s", fieldNameOf(fa), m.Name(), c.PosStr(st.Pos()))
+					}
+				}
+			}
+		}
+		c.Check(bad == "", rule, core.ShortFn(fn), fn.Pos(), "Commit drops no cache that a getter refills from the (still previous) immutable tree",
+			"Commit empties the cache field "+bad+": until the modules are switched to the new tree a reader refills it from the previous version and this node keeps computing with the old record")
+	}
+	c.Floor(rule, n, 10, "module Commit functions")
+}
